@@ -242,6 +242,12 @@ func (s *Stump) add(adds []Hash) ([]Hash, []uint64, []uint64) {
 			}
 		}
 
+		// If the leaf never got hashed with a non-empty root, it ends up as a
+		// root on its own. It's a new node as well so keep track of it.
+		if newRoot == add {
+			updatedNodes[add] = pos
+		}
+
 		s.Roots = append(s.Roots, newRoot)
 		s.NumLeaves++
 	}
